@@ -10,6 +10,9 @@
 (*               points of the three elision regimes), x any class, and    *)
 (*               the offsets around x, around the cut points, at the ends. *)
 (*                                                                         *)
+(*  Mode "lines": run(\n, n) . run(c, 3) with n in LineCounts: line numbers  *)
+(*               with five and with more digits.                           *)
+(*                                                                         *)
 (* Texts are emitted in run-length form; the harness expands them.  Every  *)
 (* state is one case (one text with all its offsets), written by the       *)
 (* invariant EmitInv.  In mode "enum" the invariant AgreeInv checks, for   *)
@@ -18,11 +21,12 @@
 (***************************************************************************)
 EXTENDS Position, TLC, Json, CSV, IOUtils
 
-CONSTANTS Mode,        \* "enum" | "run"
+CONSTANTS Mode,        \* "enum" | "run" | "lines"
           MaxLen,      \* enum: texts up to this many characters
           RunClasses,  \* run: classes of the two runs
           XClasses,    \* run: classes of the single character between the runs
           Counts,      \* run: run lengths
+          LineCounts,  \* lines: numbers of leading line breaks
           Emit
 
 VARIABLES text,   \* enum: the text
@@ -43,13 +47,17 @@ NextRun == /\ Mode = "run"
                  /\ \E n1 \in Counts, n2 \in Counts :
                         rl' = <<<<rl[1][1], n1>>, rl[2], <<rl[3][1], n2>>>>
            /\ UNCHANGED text
-Next == NextEnum \/ NextRun
+NextLines == /\ Mode = "lines" /\ rl = <<>>
+             /\ \E n \in LineCounts, c \in RunClasses : rl' = <<<<LF, n>>, <<c, 3>>>>
+             /\ UNCHANGED text
+Next == NextEnum \/ NextRun \/ NextLines
 Spec == Init /\ [][Next]_gvars
 
 IsCase == IF Mode = "enum" THEN TRUE ELSE rl # <<>> /\ rl[1][2] >= 0
 
 \* the case's text in run-length form: empty runs dropped, equal neighbours merged
 Runs == IF Mode = "enum" THEN AsRuns(text)
+        ELSE IF Mode = "lines" THEN rl
         ELSE LET nz == SelectSeq(rl, LAMBDA r : r[2] > 0) IN
              IF Len(nz) = 3 /\ nz[1][1] = nz[2][1] /\ nz[2][1] = nz[3][1] /\ nz[1][1] \in NonBreak
                   THEN <<<<nz[1][1], nz[1][2] + 1 + nz[3][2]>>>>
@@ -81,7 +89,10 @@ RunOffsets ==
     \cup {-1, StartIdx(n) + 1}
     \cup (IF wx > 1 THEN {StartIdx(n1) + 1, StartIdx(n1) + wx - 1} ELSE {})      \* inside x
 
-Offsets(rt) == IF Mode = "enum" THEN (-1)..(BytesOf(rt, 1) + 1) ELSE RunOffsets
+\* lines mode: the last \n, then the first, second and last character of the last line, and its end
+LinesOffsets == LET n == rl[1][2]  w == W(rl[2][1]) IN {n - 1, n, n + w, n + 2 * w, n + 3 * w}
+
+Offsets(rt) == IF Mode = "enum" THEN (-1)..(BytesOf(rt, 1) + 1) ELSE IF Mode = "lines" THEN LinesOffsets ELSE RunOffsets
 
 (* ---- expectations, all from Position.tla ---- *)
 Min2(a, b) == IF a < b THEN a ELSE b
